@@ -91,12 +91,25 @@ def exhaustive(iw, res, pre, ops, depth, lines_out, impl_out, tag):
             for l in pre:
                 hist_lines.append(l)
             outs = hist.run_checked(iw, hist_lines, res, 'C01', check_domains=True)
+            unnamed = {}      # (class, set of member handles) of an unnamed macrostate request -> handle it returned
             for l in combo:
                 if not handles_ok(l, iw.held):
                     ok = False
                     break
                 fresh = must_be_created(iw, l)
                 o = hist.run_checked(iw, [l, 'names'], res, 'C01', check_domains=True, prefix=hist_lines)
+                f = l.split('\t')
+                if f[0] == 'mk.macro' and f[2] == '-' and f[3] != 'NONE':
+                    # independent of the registry keys: an unnamed request is the same request in every order of its members,
+                    # so while the object an earlier order returned is alive, every other order returns that object
+                    key = (f[1], tuple(sorted(f[3].split(' '))))
+                    h = unnamed.get(key)
+                    if h is not None and int(h[1:]) in iw.held and not o[0].startswith('ret %s ' % h):
+                        res.violation('permuted-unnamed-macrostate-request-not-same-object', {'history': hist_lines + [l]}, o[0],
+                                      'ret %s old (the live macrostate the same complexes gave in another order)' % h)
+                    if o[0].startswith('ret h'):
+                        unnamed[key] = o[0].split(' ')[1]
+                    res.count('unnamed_macrostate_requests')
                 if fresh and not (o[0].startswith('ret h') and o[0].split(' ')[2] == 'new'):
                     res.violation('fresh-complex-not-created', {'history': hist_lines + [l]}, o[0],
                                   'a new object (no rotation of this complex is live and the name is free)')
